@@ -30,6 +30,20 @@ Theorem C28_down_activation : forall evs k n,
 Proof. exact down_on_activation. Qed.
 Print Assumptions C28_down_activation.
 
+(* all interleavings: after the lapse ANY events may follow (environment, other
+   watchers, k's own steps in any order) as long as k's session is not ended;
+   once k has finished its own steps, a handler for n has run after the lapse
+   and covered every workload that was recorded on n at the lapse *)
+Theorem C28_down_interleaved : forall evs1 evs2 k se n,
+  let s0 := run init evs1 in
+  phase s0 k = Active se -> se_watch se = true -> memn n (alive s0) = true ->
+  Forall (fun e => ~ ends k e) evs2 ->
+  let s2 := run (step s0 (ELapse n)) evs2 in
+  let s3 := settle (settle_bound s2 k) k s2 in
+  exists new ws, trace s3 = new ++ trace s0 /\ In (THandled k n ws) new /\ incl (on_node n (wls s0)) ws.
+Proof. exact down_interleaved. Qed.
+Print Assumptions C28_down_interleaved.
+
 (* in any state: whatever the active session owes for n (queued DELETE, pending
    handler, node its init pass has yet to examine and that has no status) is
    discharged by its own steps *)
